@@ -39,7 +39,20 @@ var (
 
 func (t Term) String() string { return t.S }
 
+// termBudget bounds the bytes of term text built while translating one function (string terms are trees, so
+// repeated copying of large values can blow up exponentially); exceeding it aborts that function as undecided.
+var termBytes, termBudget int64
+
 func app(sort Sort, op string, args ...Term) Term {
+	n := len(op) + 2
+	for _, a := range args {
+		n += len(a.S) + 1
+	}
+	termBytes += int64(n)
+	if termBudget > 0 && termBytes > termBudget {
+		termBytes = 0
+		panic(unsupported{"term blow-up: more than the per-function budget of term text was built; function left undecided"})
+	}
 	var sb strings.Builder
 	sb.WriteByte('(')
 	sb.WriteString(op)
